@@ -814,6 +814,7 @@ package zygo
 //@ assume preserves Elems.Str
 //@ func (*Stack).nestedPathGetSet
 //@ C18 loop 0 invariant path-unchanged: forall(k, 0 <= k && k < len(dotpaths) ==> dotpaths[k] == old(dotpaths[k]))
+//@ C18 loop 0 invariant last-hop-returns: rangeindex < len(dotpaths) - 1 && !viaHash
 //@ C18 assert assign-only-public @before call mapstore[0]: isPublic(stripDot(curSym.name))
 //@ C18 assert hash-descent-only-public @before call nestedPathGetSet[0]: isPublic(stripDot(curSym.name))
 //@ C18 assert hash-walker-gets-remaining-path @before call nestedPathGetSet[0]: len(arg2) == len(dotpaths) - (i + 1) && sarr(arg2) == sarr(dotpaths) && soff(arg2) == soff(dotpaths) + (i + 1)
@@ -829,3 +830,5 @@ package zygo
 // Every multi-part path whose head is a package goes to the package walker, with the path after the head.
 //@ func dotGetSetHelper
 //@ C18 assert package-path-after-head @before call nestedPathGetSet[0]: len(arg2) == len(path) - 1 && sarr(arg2) == sarr(path) && soff(arg2) == soff(path) + 1
+// a symbol's name and number never change after it has been built
+//@ stable C18 SexpSymbol | name, number |
